@@ -953,7 +953,12 @@ class Interp:
         self.exec_block(s.orelse, env, globs)
 
     def _inv(self, spec, ns):
-        r = spec.inv(ns)
+        try:
+            r = spec.inv(ns)
+        except (AttributeError, KeyError, NameError) as e:
+            # the invariant names a local variable / field that the code no longer has (renamed, removed): the
+            # *contract* is out of date; that is reported as undecided, never as a violation of the code
+            raise Unsupported("the loop invariant refers to something the code does not have: %r" % (e,))
         if isinstance(r, (tuple, list)):
             r = band(*r)
         return r
@@ -1305,6 +1310,10 @@ class Interp:
             raise Unsupported("attribute %r of %r" % (name, o))
         if isinstance(o, BoundMethod) and name in ("__func__", "__self__", "__name__"):
             return {"__func__": o.fn, "__self__": o.recv, "__name__": o.name}[name]
+        if (type(o).__module__ or "").startswith("contracts.") and not hasattr(o, name):
+            # a contract-level model object (dict / list / stream model) that does not model this operation: the code
+            # has left the modelled fragment -- undecided, never an AttributeError blamed on the code
+            raise Unsupported("the model %s of the contract does not provide %r" % (type(o).__name__, name))
         return getattr(o, name)
 
     # symbolic references: fields live in heap functions declared by the contract
